@@ -18,8 +18,8 @@ ID = "C07"
 LEVEL = "exploration"
 TECHNIQUE = "runtime monitoring: per-tick clock-difference invariants against the state at tick begin"
 RULE = ("bounded-exhaustive: every sequence of length <= L over the alphabet {Start, Stop, Pause, Unpause, Hold, Unhold, "
-        "Restart, tick(0.1), tick(0.3)[, tick(0.05)]} (quick: L=4 without tick(0.05); thorough: L=5, plus L=6 over the "
-        "reduced alphabet from one start situation) x start situations {stopped; running inside a block with an active Watch; "
+        "Restart, tick(0.1), tick(0.3)[, tick(0.05)]} (quick: L=4 without tick(0.05); thorough: L=5 with all three ticks, plus "
+        "L=6 with tick(0.1) only from the running situation) x start situations {stopped; running inside a block with an active Watch; "
         "paused; holding; error-paused} x methods {blocks+watch; failing UOD command; invalid instruction}, each followed by "
         "7 settle ticks with rotating increments; thorough adds random sequences of length 8-24 over generated methods "
         "(blocks, watches, alarms, timed Pause/Hold, failing commands). distinct = (method, start situation, sequence); "
@@ -250,10 +250,10 @@ def plan(tier, seed):
         for i in range(shards):
             specs.append({"kind": "enum", "alpha": ["t1", "t3", "t05"], "maxlen": 5, "shard": i, "of": shards,
                           "combos": [["blocks", "stopped"], ["blocks", "running"], ["blocks", "paused"],
-                                     ["blocks", "holding"], ["fail_cmd", "running"], ["fail_cmd", "errpaused"],
-                                     ["bad_instr", "running"], ["bad_instr", "errpaused"]], "seed": seed})
+                                     ["blocks", "holding"], ["fail_cmd", "running"], ["bad_instr", "errpaused"]],
+                          "seed": seed})
         for i in range(12):
-            specs.append({"kind": "enum", "alpha": ["t1", "t3"], "maxlen": 6, "minlen": 6, "shard": i, "of": 12,
+            specs.append({"kind": "enum", "alpha": ["t1"], "maxlen": 6, "minlen": 6, "shard": i, "of": 12,
                           "combos": [["blocks", "running"]], "seed": seed})
         for i in range(12):
             specs.append({"kind": "random", "seed": seed * 1000003 + 100 + i, "n": 2500, "minlen": 8, "maxlen": 24})
